@@ -227,8 +227,8 @@ Print Assumptions C12_example_objectdb_empty_scope.
 (* ---- lifted over any number of sessions (coq/C12/Sessions.v) ---- *)
 From RopeVerif.C12 Require Import Sessions SessionsProofs.
 
-(* Any number of sessions, each opening what the previous close wrote, doing / undoing / redoing any
-   changes and closing again: the file written by the last close is the file the project that was
+(* Any number of sessions, each opening what the previous close wrote, doing / undoing / redoing / undoing-and-dropping any
+   changes, clearing the history, and closing again: the file written by the last close is the file the project that was
    never closed would write, for every ignore predicate and every max_history_items, from every
    history [within] the limit (|undo| + |redo| <= limit: what History maintains from an empty
    history on, C12_sessions_from_empty), and for every way [stamp] a redo re-stamps the change it
@@ -279,15 +279,15 @@ Theorem C12_redo_beyond_limit_needs_invariant :
 Proof. exact redo_beyond_limit_trimmed_at_close. Qed.
 Print Assumptions C12_redo_beyond_limit_needs_invariant.
 
-(* Non-vacuity: three sessions with do, undo, redo, an ignored-only change and a trimmed entry. *)
+(* Non-vacuity: four sessions with do, undo, redo, undo(drop), clear, an ignored-only change and a trimmed entry. *)
 Example C12_example_sessions :
   let ign := ign_of [[98%N]] in
   let a := CCreate [97%N] RFile in let b := CCreate [98%N] RFile in
   let c := CContents [97%N] [49%N] (Some []) in let m := CMove [97%N] RFile [99%N] in
-  let ss := [[SDo a; SDo b; SDo c]; [SUndo; SUndo; SRedo]; [SRedo; SDo m; SUndo]] in
+  let ss := [[SDo a; SDo b; SDo c]; [SUndo; SUndo; SRedo]; [SRedo; SDo m; SUndo]; [SDo b; SUndoDrop; SDo a; SClear; SDo m]] in
   within 2 empty_hist /\
-  live ign 2 (fun c => c) empty_hist (concat ss) = {| undo_list := [c]; redo_list := [m] |} /\
+  live ign 2 (fun c => c) empty_hist (concat ss) = {| undo_list := [m]; redo_list := [] |} /\
   sessions ign 2 (fun c => c) (close true 2 empty_hist) ss =
-    Some (close true 2 {| undo_list := [c]; redo_list := [m] |}).
+    Some (close true 2 {| undo_list := [m]; redo_list := [] |}).
 Proof. exact (conj (le_S _ _ (le_S _ _ (le_n 0))) (conj eq_refl eq_refl)). Qed.
 Print Assumptions C12_example_sessions.
